@@ -156,6 +156,18 @@ def body(H, case):
     for (i, j) in patA:
         if i <= j:
             H.prove_eq(f"refreshed: a_i LA_ij = conj(a_j LA_ji) [{i},{j}]", areas[i] * K.entry(LR, i, j), K.conj(areas[j] * K.entry(LR, j, i)))
+    # the same with terminal sites handed over but psi not pinned there (what the solver does for
+    # terminal_psi = None: the sites only carry the boundary condition of mu) - the operator is the full
+    # covariant Laplacian and must stay Hermitian through a refresh
+    fixed = np.asarray(mesh.boundary_indices[:2], dtype=np.int64)
+    mu_ = ops.MeshOperators(mesh, SparseSolver.SUPERLU, fixed_sites=fixed, fix_psi=False)
+    mu_.set_link_exponents(K.link_exponents_for(H, mesh, theta0))  # build
+    mu_.set_link_exponents(Alink)  # refresh in place
+    LU_ = mu_.psi_laplacian
+    H.prove("unpinned terminal sites: refreshed covariant pattern = built pattern", K.pattern(LU_) == patA)
+    for (i, j) in patA:
+        if i <= j:
+            H.prove_eq(f"unpinned terminal sites, refreshed: a_i LA_ij = conj(a_j LA_ji) [{i},{j}]", areas[i] * K.entry(LU_, i, j), K.conj(areas[j] * K.entry(LU_, j, i)))
     # covariant gradient row structure: (GA psi)_e = (U_e psi_j - psi_i)/e_e
     psi = H.cplxs("p", ns)
     GApsi = K.elems(GA @ psi)
